@@ -343,3 +343,34 @@ class polygons_share_no_mutable_default:
     post = {'distinct_origins': lambda result: result[0].origin is not result[1].origin and result[2].origin is not result[0].origin
             and result[2].origin is not result[1].origin,
             'origin_is_the_pixel_origin': lambda result: result[0].origin.x == 0 and result[0].origin.y == 0 and result[2].origin.x == 0}
+
+
+# ---------------------------------------------------------------------------- meta / visual entries: the KEY sets matter, not only the values
+ENTRY_CASES = {
+    # (which dictionary, entries of a, entries of b): same number of entries, different keys
+    'visual_none_valued_key_vs_other_key': ('visual', {'color': 'red', 'default_style': None}, {'color': 'red', 'linewidth': 2}),
+    'meta_none_valued_key_vs_other_key': ('meta', {'label': 'x', 'comment': None}, {'label': 'x', 'frame': 'icrs'}),
+    'visual_zero_valued_key_vs_other_key': ('visual', {'linewidth': 0}, {'fontsize': 0}),
+    'meta_false_valued_key_vs_absent': ('meta', {'include': False}, {}),
+    'meta_none_valued_key_vs_absent': ('meta', {'comment': None}, {}),
+    'visual_same_key_none_vs_value': ('visual', {'default_style': None}, {'default_style': 'ds9'}),
+}
+
+
+@contract('regions/core/core.py::Region.__eq__', props=['C16'])
+class region_equality_sees_every_meta_and_visual_key:
+    """two regions with equal shape parameters whose meta / visual differ in which keys they hold are different regions, in both orders -
+    also when an entry's value is None, 0 or False (values that a careless `.get()` comparison confuses with absence)"""
+    cases = {k: {'which': k} for k in ENTRY_CASES}
+
+    def setup(B, which='visual_none_valued_key_vs_other_key'):
+        what, ea, eb = ENTRY_CASES[which]
+        c, rad = pix(B, 'c'), B.real('rad')
+        ma, mb = B.meta(META, 'a.meta', ea if what == 'meta' else {}), B.meta(META, 'b.meta', eb if what == 'meta' else {})
+        va, vb = B.meta(VISUAL, 'a.visual', ea if what == 'visual' else {}), B.meta(VISUAL, 'b.visual', eb if what == 'visual' else {})
+        return dict(a=B.new(CIRCLE, label='a', center=c, radius=rad, meta=ma, visual=va),
+                    b=B.new(CIRCLE, label='b', center=c, radius=rad, meta=mb, visual=vb))
+    pre = lambda a: a.radius > 0
+    call = lambda a, b: (a == b, b == a, a != b, b != a, a == a)
+    post = {'unequal_in_both_orders': lambda result: (not result[0]) and (not result[1]) and result[2] and result[3],
+            'reflexive': lambda result: result[4]}
